@@ -1186,6 +1186,10 @@ func (c *Ctx) ruleGlobals(rule string) {
 			r.Ok(rule, construct+":seam", p.Pos(g.Pos()), "func variable assigned once, by the package initialiser, to "+funcShort(seamTarget(g))+": never written by the library")
 			continue
 		}
+		if !immutable && c.bufferPool(g) && c.poolUsesScratch(g) {
+			r.Ok(rule, construct+":scratch-pool", p.Pos(g.Pos()), "a sync.Pool of *bytes.Buffer used only as reset-before-use scratch space whose contents leave as fresh copies")
+			continue
+		}
 		if !immutable && readOnlyGlobal(g, us2instrs(us)) {
 			r.Ok(rule, construct+":read-only", p.Pos(g.Pos()), "only read (lookups, indexing, ranging, comparisons): never written, never handed out")
 			continue
@@ -4979,7 +4983,7 @@ func (c *Ctx) ruleFormattedBytesPrivate(rule string) {
 		for _, ci := range callsTo(f, func(nm string, cc *ssa.CallCommon) bool { return nm == "(*eventlogger.Event).FormattedAs" }) {
 			n++
 			t := tb.Of(ci.Common().Args[2])
-			r.Check(freshBytes(t, 0), rule, p.ShortFn(f)+"->FormattedAs:private-bytes", p.InstrPos(ci), "the stored bytes are those of a buffer allocated by this call", "the bytes stored under the format ("+shortStr(t.String(), 100)+") are not the contents of a buffer allocated by this call: memory that is reused for later events (a pooled buffer, a field) is overwritten by the next event's formatting before or while a sink writes this one — acknowledged events come out duplicated, torn or not at all")
+			r.Check(freshBytes(t, 0) || c.freshCopyOfScratch(ci.Common().Args[2]), rule, p.ShortFn(f)+"->FormattedAs:private-bytes", p.InstrPos(ci), "the stored bytes are those of a buffer allocated by this call", "the bytes stored under the format ("+shortStr(t.String(), 100)+") are not the contents of a buffer allocated by this call: memory that is reused for later events (a pooled buffer, a field) is overwritten by the next event's formatting before or while a sink writes this one — acknowledged events come out duplicated, torn or not at all")
 		}
 	}
 	if n < 3 {
@@ -6050,6 +6054,10 @@ func (c *Ctx) rulePanicSites(rule string) {
 					return
 				}
 				n++
+				if c.pooledScratch(x) {
+					r.Ok(rule, p.ShortFn(f)+":panic-site:assert", p.InstrPos(in), "unchecked assertion on what a package-level pool of *bytes.Buffer hands back (typed by its New and every Put)")
+					return
+				}
 				r.Check(inGraphMap, rule, p.ShortFn(f)+":panic-site:assert", p.InstrPos(in), "unchecked assertion on what graphMap's own sync.Map hands back (typed by Store)",
 					"an unchecked type assertion to "+typeShort(x.AssertedType)+" outside graphMap's methods: a value of another type panics inside a Broker call instead of being reported as an error")
 			case *ssa.Panic:
@@ -8955,4 +8963,429 @@ func (c *Ctx) ruleNoLockInStringer(rule string) {
 	if bad == 0 {
 		r.Check(n >= 1, rule, "stringer", "", fmt.Sprintf("%d String / Error / Marshal methods in the module, none takes a lock", n), "no String / Error method found in the module")
 	}
+}
+
+// pooledScratch recognises the scratch-buffer idiom a pooled buffer may be used in without
+// any byte of one event reaching another: v is `pool.Get().(*bytes.Buffer)` for a
+// package-level sync.Pool that only ever holds *bytes.Buffer (its New, every Put), the
+// buffer is Reset before anything else is done with it, it is used only through its own
+// methods and as the writer of a json encoder, it goes nowhere but back into the pool, and
+// its contents leave the function only as fresh copies (bytes.Clone, append onto nil,
+// String()). Anything else — no Reset, Bytes() handed on as it is, the buffer stored or
+// passed along — is not this idiom, and the caller's rule reports it.
+func (c *Ctx) pooledScratch(v ssa.Value) bool {
+	ta, ok := v.(*ssa.TypeAssert)
+	if !ok || ta.CommaOk || !isPtrBuffer(ta.AssertedType) {
+		return false
+	}
+	get, ok := ta.X.(*ssa.Call)
+	if !ok || calleeName(&get.Call) != "(*sync.Pool).Get" || len(get.Call.Args) != 1 {
+		return false
+	}
+	g, ok := get.Call.Args[0].(*ssa.Global)
+	if !ok || !c.bufferPool(g) {
+		return false
+	}
+	var resets []ssa.Instruction
+	var others []ssa.Instruction
+	for _, ref := range nonDebugRefs(ta) {
+		switch x := ref.(type) {
+		case *ssa.Call:
+			if x.Call.IsInvoke() || len(x.Call.Args) == 0 || x.Call.Args[0] != ssa.Value(ta) {
+				return false
+			}
+			switch calleeName(&x.Call) {
+			case "(*bytes.Buffer).Reset":
+				resets = append(resets, x)
+			case "(*bytes.Buffer).Bytes":
+				for _, u := range nonDebugRefs(x) {
+					uc, isCall := u.(*ssa.Call)
+					fresh := isCall && (calleeName(&uc.Call) == "bytes.Clone" || calleeName(&uc.Call) == "builtin len" || freshCopyOf(uc, x))
+					if cv, isConv := u.(*ssa.Convert); isConv {
+						if b, isB := cv.Type().Underlying().(*types.Basic); isB && b.Kind() == types.String {
+							fresh = true
+						}
+					}
+					if !fresh {
+						return false
+					}
+				}
+				others = append(others, x)
+			case "(*bytes.Buffer).String", "(*bytes.Buffer).Len", "(*bytes.Buffer).Write", "(*bytes.Buffer).WriteString", "(*bytes.Buffer).WriteByte", "(*bytes.Buffer).WriteRune", "(*bytes.Buffer).Truncate", "(*bytes.Buffer).Grow":
+				others = append(others, x)
+			default:
+				return false
+			}
+		case *ssa.MakeInterface:
+			// the writer of a json encoder, or the value that goes back into the pool
+			for _, u := range nonDebugRefs(x) {
+				switch y := u.(type) {
+				case *ssa.Call:
+					switch calleeName(&y.Call) {
+					case "encoding/json.NewEncoder":
+						others = append(others, y)
+					case "(*sync.Pool).Put":
+					default:
+						return false
+					}
+				case *ssa.Defer:
+					if calleeName(&y.Call) != "(*sync.Pool).Put" {
+						return false
+					}
+				default:
+					return false
+				}
+			}
+		default:
+			return false
+		}
+	}
+	// a Reset comes before every other use
+	for _, o := range others {
+		dominated := false
+		for _, rs := range resets {
+			if rs.Block() == o.Block() {
+				for _, in := range rs.Block().Instrs {
+					if in == rs {
+						dominated = true
+						break
+					}
+					if in == o {
+						break
+					}
+				}
+			} else if rs.Block().Dominates(o.Block()) {
+				dominated = true
+			}
+		}
+		if !dominated {
+			return false
+		}
+	}
+	return len(resets) > 0
+}
+
+// bufferPool: g is a package-level sync.Pool whose New returns a *bytes.Buffer, into which only
+// *bytes.Buffer values are Put, and which is used in no other way (not copied, not handed on).
+func (c *Ctx) bufferPool(g *ssa.Global) bool {
+	p := c.P
+	if g.Type().String() != "*sync.Pool" {
+		return false
+	}
+	okNew := false
+	for _, f := range p.RepoFuncs() {
+		bad := false
+		eachInstr(f, func(in ssa.Instruction) {
+			for _, op := range in.Operands(nil) {
+				if op == nil || *op != ssa.Value(g) {
+					continue
+				}
+				switch x := in.(type) {
+				case *ssa.FieldAddr:
+					// init: pool.New = func() interface{} { return new(bytes.Buffer) }
+					if f.Name() != "init" {
+						bad = true
+						return
+					}
+					for _, u := range nonDebugRefs(x) {
+						st, isSt := u.(*ssa.Store)
+						if !isSt {
+							bad = true
+							return
+						}
+						var nf *ssa.Function
+						switch fv := st.Val.(type) {
+						case *ssa.Function:
+							nf = fv
+						case *ssa.MakeClosure:
+							nf, _ = fv.Fn.(*ssa.Function)
+						}
+						if nf == nil {
+							bad = true
+							return
+						}
+						for _, ret := range Returns(nf) {
+							rv := RetVals(ret)
+							mi, isMI := rv[0].(*ssa.MakeInterface)
+							if len(rv) != 1 || !isMI || !isPtrBuffer(mi.X.Type()) {
+								bad = true
+								return
+							}
+							okNew = true
+						}
+					}
+				case ssa.CallInstruction:
+					switch calleeName(x.Common()) {
+					case "(*sync.Pool).Get":
+					case "(*sync.Pool).Put":
+						mi, isMI := x.Common().Args[1].(*ssa.MakeInterface)
+						if !isMI || !isPtrBuffer(mi.X.Type()) {
+							bad = true
+						}
+					default:
+						bad = true
+					}
+				default:
+					bad = true
+				}
+			}
+		})
+		if bad {
+			return false
+		}
+	}
+	return okNew
+}
+
+// poolUsesScratch: every Get on the pool g is used in the scratch idiom (pooledScratch).
+func (c *Ctx) poolUsesScratch(g *ssa.Global) bool {
+	n, ok := 0, true
+	for _, f := range c.P.RepoFuncs() {
+		for _, ci := range callsTo(f, func(nm string, cc *ssa.CallCommon) bool {
+			return nm == "(*sync.Pool).Get" && len(cc.Args) == 1 && cc.Args[0] == ssa.Value(g)
+		}) {
+			n++
+			call, isCall := ci.(*ssa.Call)
+			if !isCall {
+				ok = false
+				continue
+			}
+			refs := nonDebugRefs(call)
+			if len(refs) != 1 {
+				ok = false
+				continue
+			}
+			if ta, isTA := refs[0].(*ssa.TypeAssert); !isTA || !c.pooledScratch(ta) {
+				ok = false
+			}
+		}
+	}
+	return ok && n > 0
+}
+
+// freshCopyOfScratch: v is bytes.Clone(buf.Bytes()) / append([]byte(nil), buf.Bytes()...) of a pooled
+// scratch buffer (pooledScratch): a copy of its own, made before the buffer goes back.
+func (c *Ctx) freshCopyOfScratch(v ssa.Value) bool {
+	call, ok := v.(*ssa.Call)
+	if !ok {
+		return false
+	}
+	var src ssa.Value
+	switch {
+	case calleeName(&call.Call) == "bytes.Clone" && len(call.Call.Args) == 1:
+		src = call.Call.Args[0]
+	case calleeName(&call.Call) == "builtin append" && len(call.Call.Args) == 2 && isNilConst(call.Call.Args[0]):
+		src = call.Call.Args[1]
+	default:
+		return false
+	}
+	bc, ok := src.(*ssa.Call)
+	if !ok || calleeName(&bc.Call) != "(*bytes.Buffer).Bytes" || len(bc.Call.Args) != 1 {
+		return false
+	}
+	return c.pooledScratch(bc.Call.Args[0])
+}
+
+func isPtrBuffer(t types.Type) bool { return t.String() == "*bytes.Buffer" }
+
+// ruleAtomicValueStores (C03.private <fn>:panic-site:atomic-value): sync/atomic.Value panics when a
+// value of another concrete type than the first one is stored. Every Store / Swap / CompareAndSwap
+// on an atomic.Value in the two modules therefore stores a value whose concrete type is fixed in the
+// source (a MakeInterface of a non-interface type), the same at every site of that Value. Storing an
+// interface value (a wrapper, a node, an error someone configured) makes the type the caller's
+// choice: the second implementation that comes along panics — in the goroutine of a Send.
+func (c *Ctx) ruleAtomicValueStores(rule string) {
+	p, r := c.P, c.R
+	types_ := map[string]string{}
+	for _, f := range p.RepoFuncs() {
+		if p.InCtl(f) {
+			continue
+		}
+		for _, ci := range callsTo(f, func(n string, cc *ssa.CallCommon) bool {
+			return n == "(*sync/atomic.Value).Store" || n == "(*sync/atomic.Value).Swap" || n == "(*sync/atomic.Value).CompareAndSwap"
+		}) {
+			args := ci.Common().Args
+			key := p.NewTerms(nil).Of(args[0]).String()
+			if fa, ok := args[0].(*ssa.FieldAddr); ok {
+				key = typeShort(fa.X.Type()) + "." + fieldName(fa)
+			}
+			for _, a := range args[1:] {
+				mi, ok := a.(*ssa.MakeInterface)
+				fixed := ok && !types.IsInterface(mi.X.Type())
+				if fixed {
+					t := mi.X.Type().String()
+					if prev, seen := types_[key]; seen && prev != t {
+						fixed = false
+					} else {
+						types_[key] = t
+					}
+				}
+				r.Check(fixed, rule, p.ShortFn(f)+":panic-site:atomic-value", p.InstrPos(ci), "the value stored in the atomic.Value has one concrete type fixed in the source", "an interface value ("+shortStr(p.NewTerms(nil).Of(a).String(), 80)+") is stored in the atomic.Value "+key+": atomic.Value panics when the concrete type differs from the one stored first, and here the type is whatever the caller configured (a second wrapper implementation, say) — a panic inside a Broker call")
+			}
+		}
+	}
+}
+
+// ruleHandoffPrivate (C06.close <fn>:handoff-private): what a locked section of the Broker hands to
+// the code that runs after the lock is released — the list of nodes to close, a snapshot of graphs —
+// is memory of that call alone. No method of Broker, graph or graphMap returns a slice or map that
+// is (a re-slice of, an append onto) a field of the shared object: the next caller's locked section
+// would overwrite the list while this one still works through it (nodes closed twice, others never).
+func (c *Ctx) ruleHandoffPrivate(rule string) {
+	p, r := c.P, c.R
+	n := 0
+	for _, f := range p.FuncsIn(PkgRoot) {
+		recv := f.Signature.Recv()
+		if recv == nil || f.Blocks == nil {
+			continue
+		}
+		switch typeShort(recv.Type()) {
+		case "eventlogger.Broker", "eventlogger.graph", "eventlogger.graphMap":
+		default:
+			continue
+		}
+		for _, ret := range Returns(f) {
+			for _, v := range RetVals(ret) {
+				switch v.Type().Underlying().(type) {
+				case *types.Slice, *types.Map:
+				default:
+					continue
+				}
+				n++
+				var bad ssa.Value
+				seen := map[ssa.Value]bool{}
+				var walk func(x ssa.Value)
+				walk = func(x ssa.Value) {
+					if x == nil || seen[x] || bad != nil {
+						return
+					}
+					seen[x] = true
+					switch y := x.(type) {
+					case *ssa.Phi:
+						for _, e := range y.Edges {
+							walk(e)
+						}
+					case *ssa.Slice:
+						walk(y.X)
+					case *ssa.Call:
+						if calleeName(&y.Call) == "builtin append" && len(y.Call.Args) > 0 {
+							walk(y.Call.Args[0])
+						}
+					case *ssa.UnOp:
+						if y.Op == token.MUL {
+							if fa, ok := y.X.(*ssa.FieldAddr); ok && isParamValue(fa.X, f.Params[0]) {
+								bad = y
+								return
+							}
+							// a local cell (named result, spilled variable): follow what is stored into it
+							if al, ok := y.X.(*ssa.Alloc); ok {
+								for _, ref := range nonDebugRefs(al) {
+									if st, isSt := ref.(*ssa.Store); isSt && st.Addr == ssa.Value(al) {
+										walk(st.Val)
+									}
+								}
+							}
+						}
+					}
+				}
+				walk(v)
+				r.Check(bad == nil, rule, p.ShortFn(f)+":handoff-private", p.InstrPos(ret), "the slice / map handed back is memory of this call", "the method hands back "+shortStr(p.NewTerms(nil).Of(v).String(), 100)+", which is (built on) a field of the shared "+typeShort(recv.Type())+": the caller works through it after the lock is released while the next call's locked section rewrites the same backing array — entries of one removal are replaced by another's (nodes closed twice, others never closed)")
+			}
+		}
+	}
+	if n < 2 {
+		r.Und(rule, "handoff-private:instance-floor", "", fmt.Sprintf("only %d slice / map results of Broker / graph / graphMap methods found (>= 2 confirmed by hand)", n))
+	}
+}
+
+// ruleElementLoops (C09.elements <fn>:whole-range): every element of a slice the walk filters is
+// visited: each reflect Index(i) call of the encrypt package sits in a loop whose counter starts
+// at 0, moves by 1 and runs up to the Len() of the very value that is indexed. A loop over a run
+// [from, to) handed in from elsewhere (worker partitions, batches) is not decided here — whether the
+// runs add up to the whole slice is arithmetic this check does not do — and is reported.
+func (c *Ctx) ruleElementLoops(rule string) {
+	p, r := c.P, c.R
+	n := 0
+	for _, f := range p.FuncsIn(PkgEncrypt) {
+		for _, ci := range callsTo(f, func(nm string, cc *ssa.CallCommon) bool { return nm == "(reflect.Value).Index" }) {
+			call, ok := ci.(*ssa.Call)
+			if !ok {
+				continue
+			}
+			n++
+			args := call.Call.Args
+			idx := args[1]
+			ok, why := false, "the index is not a loop counter"
+			if phi, isPhi := idx.(*ssa.Phi); isPhi && len(phi.Edges) == 2 {
+				var start, step ssa.Value
+				for _, e := range phi.Edges {
+					if bo, isBo := e.(*ssa.BinOp); isBo && bo.Op == token.ADD && bo.X == ssa.Value(phi) {
+						step = bo.Y
+					} else {
+						start = e
+					}
+				}
+				s0, okS := constInt(start)
+				s1, okT := constInt(step)
+				switch {
+				case start == nil || step == nil || !okS || s0 != 0:
+					why = "the counter does not start at the constant 0"
+				case !okT || s1 != 1:
+					why = "the counter does not move by 1"
+				default:
+					// the loop's exit test: i < Len(value) (Len read in the header or hoisted before the loop)
+					why = "no test of the counter against the Len() of the indexed value"
+					for _, ref := range nonDebugRefs(phi) {
+						bo, isBo := ref.(*ssa.BinOp)
+						if !isBo || bo.Op != token.LSS || bo.X != ssa.Value(phi) {
+							continue
+						}
+						lim := bo.Y
+						if lc, isCall := lim.(*ssa.Call); isCall && calleeName(&lc.Call) == "(reflect.Value).Len" && sameReflectValue(lc.Call.Args[0], args[0]) {
+							ok = true
+						}
+					}
+				}
+			}
+			r.Check(ok, rule, p.ShortFn(f)+":whole-range", p.InstrPos(call), "the element is read in a loop from 0 to Len() of the indexed value, step 1", "an element is read with Index outside a whole-range loop ("+why+"): elements the loop does not reach are forwarded as they came in — in the clear")
+		}
+	}
+	if n < 3 {
+		r.Und(rule, "whole-range:instance-floor", "", fmt.Sprintf("only %d reflect Index calls found in package encrypt (>= 3 confirmed by hand)", n))
+	}
+}
+
+// sameReflectValue: two operands denote the same reflect.Value (the same register, or loads of the same cell).
+func sameReflectValue(a, b ssa.Value) bool {
+	if a == b {
+		return true
+	}
+	la, okA := a.(*ssa.UnOp)
+	lb, okB := b.(*ssa.UnOp)
+	return okA && okB && la.Op == token.MUL && lb.Op == token.MUL && la.X == lb.X
+}
+
+// isParamValue: v is the parameter, or a load of the cell it was spilled into (a parameter a closure captures).
+func isParamValue(v ssa.Value, par *ssa.Parameter) bool {
+	if v == ssa.Value(par) {
+		return true
+	}
+	ld, ok := v.(*ssa.UnOp)
+	if !ok || ld.Op != token.MUL {
+		return false
+	}
+	al, ok := ld.X.(*ssa.Alloc)
+	if !ok {
+		return false
+	}
+	n := 0
+	for _, ref := range nonDebugRefs(al) {
+		if st, isSt := ref.(*ssa.Store); isSt && st.Addr == ssa.Value(al) {
+			n++
+			if st.Val != ssa.Value(par) {
+				return false
+			}
+		}
+	}
+	return n == 1
 }
